@@ -50,6 +50,10 @@ def run(chk):
     from props import _state
     _state.run_length_wrap(chk)
     _state.run_alloc_refused(chk)
+    from props import C09 as _c09
+    _c09.run_long_dims(chk)        # dimension lists far longer than MAX_DEPTH: rejected without a write outside the object
     _compose.finish(chk)
+    from props import C20 as _c20
+    _c20.run_eq_leg(chk, lambda name: "Input" in name or "Array" in name or "Shape" in name or "Parameter" in name)    # C entry points that take caller arrays
     chk.trusted += ["memory safety of C++ that is not index arithmetic or ownership bookkeeping (iterator invalidation, object lifetime, library internals) is observed only by the sanitizers on the generated histories",
                     "tensor handle ownership is C07's model; MessagePack object ownership is checked in C13/C14's harness runs"]
